@@ -413,18 +413,20 @@ func dnWorkload() {
 
 func main() {
 	r = mon.Start("C16", "exploration")
-	r.Rule("SIDs: every sub-authority count 0..15 x 20 authorities (0,1,5,…,2^32-1,2^32,2^48-1) x boundary sub-authority values (uniform, rotating, one extreme per position), 20 well-known SIDs, seeded SIDs; each also followed by trailing bytes; every truncation of a sample of them. DNs: 0..8 RDNs of types CN/OU/DC/O/L, non-DC values drawn from every character AD escapes (, + \" \\ < > ; = leading #/space, control characters) and fragments such as ',DC=evil', DC values DNS labels, written in AD's escaped string form (commas as \\, or \\2C, '=' as \\= or \\3D). Non-trivial = each distinct SID text, each (count, truncation length), each distinct DN with >= 2 RDNs. State monitors (state.go): every SID/DN decoded right after neighbours sharing part of its bytes (other authority, other RID, one sub-authority or DC more/fewer) through a caller buffer that is overwritten and reused, results held and re-compared, 8 concurrent callers; each base SID / DN sequence counts once.")
+	r.Rule("SIDs: every sub-authority count 0..15 x 20 authorities (0,1,5,…,2^32-1,2^32,2^48-1) x boundary sub-authority values (uniform, rotating, one extreme per position), 20 well-known SIDs, seeded SIDs; each also followed by trailing bytes; every truncation of a sample of them. DNs: 0..8 RDNs of types CN/OU/DC/O/L, non-DC values drawn from every character AD escapes (, + \" \\ < > ; = leading #/space, control characters) and fragments such as ',DC=evil', DC values DNS labels, written in AD's escaped string form (commas as \\, or \\2C, '=' as \\= or \\3D). Non-trivial = each distinct SID text, each (count, truncation length), each distinct DN with >= 2 RDNs. State monitors (state.go): every SID/DN decoded right after neighbours sharing part of its bytes (other authority, other RID, one sub-authority or DC more/fewer) through a caller buffer that is overwritten and reused, results held and re-compared, 8 concurrent callers; each base SID / DN sequence counts once. Session monitors (session.go, ldapsrv.go): ldap.Session (InitSession/Connect, GetAllDomains, GetDomain by DNS and short name in three letter cases, FindObjectSIDByRID for domain-relative and BUILTIN RIDs, present and absent) against a scripted loopback LDAP responder serving 3 boundary forests (sub-authority counts 0/1/14/15, authorities 0, 2^32-1, 2^32, 2^48-1, sub-authorities 0 / powers of ten / 2^32-1, RIDs 0, 1, powers of ten, 2^31, 2^32-1, heads without / with a truncated / with an empty objectSid, 1- and 63-character labels) and seeded forests of 2..5 domain heads; every returned SID / DNS name / DN is compared with the reference text of the bytes the responder logged as sent for that object, map values must be distinct objects, held Domain objects are re-compared after later calls; non-trivial = each distinct (call, object sent).")
 	r.Assume(
 		"the identifier authority is printed in decimal for all 48-bit values, as the property states (MS-DTYP would print values >= 2^32 in hexadecimal)",
 		"bytes after the declared SID length are not part of the SID: the canonical text or a refusal (\"\") are both accepted, a different text is not",
 		"a truncated SID is not well-formed: the documented result \"\" is demanded, and no crash",
 		"revision != 1 and counts above 15 are outside the property (only absence of a crash is observed)",
 		"DNs are in the form Active Directory emits: upper-case attribute types, no blanks around separators, single-valued RDNs, backslash escapes (no RFC 2253 quoted strings); DC values are DNS labels and need no escaping",
+		"Session monitors: the oracle is the bytes the responder sent, not what the caller asked for; the letter case of Domain.DNSName and of the keys of GetAllDomains is not demanded (compared case-insensitively); Domain.NetBIOSName is not judged; a lookup answered by no object must give \"\", by several objects \"\" or the text of one of them; a wrongly built search filter (responder finds nothing) is counted (session_rid_lookup_nothing_sent), not judged",
 		"Active Directory treats '=' inside a value as reserved and emits it escaped (\\= or \\3D), so a literal 'DC=' never follows an escaped comma in its output; the RFC 4514 minimal spelling with a bare '=' is run as well but only counted (dn_rfc4514_minimal_form_*), not judged",
 	)
 	r.Extra("exhaustive_subdomains", []string{"sub-authority counts 0..15", "every truncation length of the sampled SIDs"})
 	sidWorkload()
 	dnWorkload()
-	stateWorkload() // state.go: neighbour sequences, reused caller buffer, held results, concurrent callers
+	stateWorkload()   // state.go: neighbour sequences, reused caller buffer, held results, concurrent callers
+	sessionWorkload() // session.go + ldapsrv.go: the decoders reached through ldap.Session against a scripted loopback LDAP responder
 	r.Finish()
 }
